@@ -764,18 +764,22 @@ MANIFEST = dict(
               "induction on fuel over nested initializers with a joint invariant of the two passes of "
               "convert_struct_from_object; new = zero block + assignment) + differential correspondence with the real "
               "backend (bytes, sizes, exception classes), ASan/UBSan build in thorough",
-    text="Proof: for every well-formed layout in which no array has var-sized structs as items and every initializer "
-         "(lists, tuples, dicts, bytes, str, cdata, lengths; valid or not), the model of ffi.new never writes outside the "
-         "block sized by direct_newp / the optvarsize pass (C20_sizing_dominates, C20_need_is_enough), an assignment into "
-         "a fixed-size type stays inside it and keeps the block length (C20_assign_stays_inside), and ffi.new(T, init) is "
-         "a zero block followed by the same convert_from_object as p[0] = init (C20_new_is_assign, "
-         "C20_new_is_literal_assign). For arrays of var-sized structs the statement is refuted by witness "
-         "(C20_sizing_dominates_refuted) and replayed on the real code under ASan: known finding "
-         "array_of_varsize_struct. The hand model is tied to the C code on every run by comparing bytes / ffi.sizeof / "
-         "exception class of ffi.new(T, init) and of the assignment form on generated nested initializers.",
+    text="Proof: for every well-formed layout (wf_type, evaluated on the real typeof(T).fields of every case) and every "
+         "initializer (lists, tuples, dicts, bytes, str counted in units of the item type, cdata, lengths; valid or not), "
+         "the model of ffi.new never writes outside the block sized by direct_newp / the optvarsize pass "
+         "(C20_sizing_dominates, C20_need_is_enough: a joint invariant of the two passes of convert_struct_from_object, "
+         "all nesting depths); converting an initializer into a member changes no byte outside that member "
+         "(C20_assign_stays_inside, frame); with a keyword initializer every byte outside the named members is zero and "
+         "the block has sizeof bytes (C20_unnamed_bytes_are_zero). C20_new_is_assign is definitional (one fill in the "
+         "model, as one convert_from_object in the C code): the equality new(T, init) == new(T); p[0] = init is decided by "
+         "the correspondence on the real code. The earlier refutation for arrays of var-sized structs (heap overflow, "
+         "finding array_of_varsize_struct) was repaired in /repo commit 812503f; the guard is modelled (item_guard) and "
+         "the theorem now holds without that exclusion. The hand model is tied to the C code on every run by comparing "
+         "bytes / ffi.sizeof / exception class of ffi.new(T, init), of the assignment form and of the by-name form on "
+         "generated nested initializers.",
     note="Trusted: Coq kernel; hand model C20/Model.v (tied by differential testing, not by translation); layouts are read "
          "from real cffi (C01 owns them) and checked against wf_type on each case; primitive conversions abstracted "
-         "(C03/C05); Py_ssize_t wrap-around test modelled as a bound. Not proved: content equalities beyond the "
-         "definitional new = zeros + assign (which bytes are written is tied by correspondence only); "
-         "ffi.sizeof(p[0]) = block size is checked on the implementation, not proved.",
+         "(C03/C05); Py_ssize_t wrap-around test modelled as a bound. Not proved: which values are written (tied by "
+         "correspondence only); positional = keyword over the leading fields and ffi.sizeof(p[0]) = block size for "
+         "var-sized structs are checked on the implementation, not proved.",
     design_ref="DESIGN.md §4 C20")
